@@ -9,6 +9,7 @@ import (
 	"github.com/synnaxlabs/aspen/internal/cluster/store"
 	"github.com/synnaxlabs/aspen/internal/node"
 	"github.com/synnaxlabs/x/confluence"
+	"github.com/synnaxlabs/x/errors"
 	xkv "github.com/synnaxlabs/x/kv"
 )
 
@@ -92,6 +93,74 @@ func VerifC13IngressOnce() {
 		verifAssert("never-stale", total == 0 && !changed)
 	} else {
 		verifAssert("complete-at-ingress", len(acc1) == 1 && changed)
+	}
+	verifReach("end")
+}
+
+// ---- a store whose transactions fail at the k-th write ----
+
+type verifFailKV struct {
+	*verifKV
+	failAt int // 1-based index of the failing Set/Delete over the lifetime of the store; 0: never
+	writes int
+}
+
+type verifFailTx struct {
+	*verifTx
+	db *verifFailKV
+}
+
+var errVerifWrite = errors.New("verif: injected write failure")
+
+func (kv *verifFailKV) OpenTx() xkv.Tx {
+	return &verifFailTx{verifTx: &verifTx{db: kv.verifKV}, db: kv}
+}
+
+func (tx *verifFailTx) Set(ctx context.Context, key, value []byte, o ...any) error {
+	tx.db.writes++
+	if tx.db.writes == tx.db.failAt {
+		return errVerifWrite
+	}
+	return tx.verifTx.Set(ctx, key, value, o...)
+}
+
+func (tx *verifFailTx) Delete(ctx context.Context, key []byte, o ...any) error {
+	tx.db.writes++
+	if tx.db.writes == tx.db.failAt {
+		return errVerifWrite
+	}
+	return tx.verifTx.Delete(ctx, key, o...)
+}
+
+// VerifC13LocalPersist: the local persist stage (the one whose output feeds the observers and the gossip store)
+// with a storage engine that fails at an arbitrary write of the transaction, or not at all. The request is
+// forwarded downstream exactly when it was committed; a failed commit is reported to the caller, forwards nothing
+// and leaves the store as it was.
+func VerifC13LocalPersist() {
+	ctx := context.Background()
+	kv, _ := verifStore(verifLen("m", 0, 1))
+	n := verifLen("ops", 1, verifParam("ops", 2))
+	fkv := &verifFailKV{verifKV: kv, failAt: verifLen("failAt", 0, 2*n)}
+	ps := &persist{db: fkv}
+	var doneErr error
+	doneCalls := 0
+	tx := TxRequest{Context: ctx, Leaseholder: 1, Operations: make([]Operation, n), doneF: func(err error) { doneCalls++; doneErr = err }}
+	for i := range tx.Operations {
+		tx.Operations[i] = verifOp("op")
+	}
+	before, commitsBefore := kv.clone(), kv.commits
+	out, forwarded, err := ps.persist(ctx, tx)
+	fails := fkv.failAt != 0
+	verifObserveBool("forwarded", forwarded)
+	verifAssert("persist-stage-never-stops-the-pipeline", err == nil)
+	verifAssert("caller-told-once", doneCalls == 1)
+	verifAssert("caller-told-of-failure-iff-write-failed", (doneErr != nil) == fails)
+	verifAssert("forwarded-to-observers-iff-committed", forwarded == !fails)
+	if fails {
+		verifAssert("failed-commit-leaves-store-unchanged", verifHStoresEqual(before, kv) && kv.commits == commitsBefore)
+	} else {
+		verifAssert("forwarded-request-carries-the-operations", len(out.Operations) == n)
+		verifAssert("committed-once", kv.commits == commitsBefore+1)
 	}
 	verifReach("end")
 }
